@@ -42,6 +42,10 @@ func isMissing(err error) bool {
 }
 
 func runC14(c *fw.Case) {
+	if desyncBin() != "" && c.Chance(1, 300, "c14.proc") {
+		runC14Proc(c)
+		return
+	}
 	mode := c.Draw(5, "c14.mode") // 0,1 chunk http; 2 index http; 3,4 casync protocol
 	switch mode {
 	case 0, 1:
